@@ -81,8 +81,7 @@ Qed.
 
 Lemma ci_of_pairs_nodup {V} (l : list (str * V)) : NoDup (lkeys l) -> ci_of_pairs l = l.
 Proof.
-  intros H. unfold ci_of_pairs. rewrite od_of_pairs_nodup by now apply lkeys_nodup_keys.
-  now rewrite fold_ci_set_nodup.
+  intros H. unfold ci_of_pairs. now rewrite fold_ci_set_nodup.
 Qed.
 
 Lemma lkeys_map_lower {V} (l : list (str * V)) : lkeys (map (fun kv => (lower (fst kv), snd kv)) l) = lkeys l.
